@@ -15,6 +15,18 @@ def run(ctx, replay):
     ctx.drive(drv, ["c15", trace2, "reverse"], timeout=900, env={"GORACE": "halt_on_error=0 exitcode=0 log_path=" + racelog})
     with open(trace, "a") as f:
         f.write(open(trace2).read())
+    # and once more in a fresh process whose first use of the library is concurrent
+    trace3 = ctx.path("c15_conc.ndjson")
+    r3 = ctx.drive(drv, ["c15", trace3, "concurrent"], timeout=900, env={"GORACE": "halt_on_error=0 exitcode=0 log_path=" + racelog}, ok_codes=(0, 1, 2))
+    fatal = None
+    if r3.returncode != 0:
+        m = re.search(r"fatal error: [^\n]*", r3.stderr)
+        if not m:
+            raise vlib.Inconclusive("concurrent-first-use driver failed rc=%d:\n%s" % (r3.returncode, r3.stderr[-2000:]))
+        fatal = m.group(0)
+    if os.path.exists(trace3):
+        with open(trace, "a") as f:
+            f.write("".join(l for l in open(trace3) if l.strip().endswith("}")))
     events = vlib.read_ndjson(trace)
     if len(events) < 100:
         raise vlib.Inconclusive("driver produced too few events")
@@ -33,6 +45,8 @@ def run(ctx, replay):
         e = events[i - 1]
         rec = dict(kind="panic" if e["panic"] else ("raw-bytes-modified-or-unstable-text" if not e["raw_same"] else "depends-on-context"), scenario=e["scenario"])
         ctx.violation(rec, dict(event=e, first_seen=next(x for x in events if x["key"] == e["key"])))
+    if fatal:
+        ctx.violation(dict(kind="fatal-runtime-error-under-concurrent-use", what=fatal[:60]), dict(stderr=r3.stderr[-4000:]))
     races = []
     d = os.path.dirname(racelog)
     for f in os.listdir(d):
@@ -44,7 +58,7 @@ def run(ctx, replay):
         ctx.violation(dict(kind="data-race", where=where[0] if where else "?"), dict(report=rep[:6000]))
     return ctx.finish(
         level="model_checking",
-        rule="one case = (frame of the pool, log level, context): fresh handler, a second fresh process meeting the frames in the opposite order, after every other frame in seeded random orders on one handler, immediate repetition, "
+        rule="one case = (frame of the pool, log level, context): fresh handler, a second fresh process meeting the frames in the opposite order, a third fresh process whose first use of the library is concurrent (incl. 18 message types unknown to every table), after every other frame in seeded random orders on one handler, immediate repetition, "
              "8 handlers in parallel goroutines each displaying two by-value copies of every message concurrently (race detector on), and the real appcore fan-out where "
              "consumer 1 displays and overwrites every field of its own copy before consumer 2 looks; pool = 1005/1006, MSM4/MSM7 of all constellations and mask shapes incl. near-twin frames (same cell-mask bits with transposed shape, same masks with other data, same payload under another constellation), "
              "1230/other/unknown types, junk, malformed CRC-valid MSM, CRC failures; distinct = distinct (key, scenario, text digest)",
